@@ -1,4 +1,5 @@
 import Pyrtma.Proofs.ValidatorsCanon
+import Pyrtma.Proofs.ValidatorsProg
 /-!
 # C09 — field validation is sound, complete and atomic
 
@@ -829,6 +830,133 @@ example : setAt false [1, 2, 3, 4, 5, 6, 7] 2 (.arr .intArray (.int .i8) 4) .who
     (.seq .list [.int 9, .int 9, .str [97], .int 4]) = ([1, 2, 9, 9, 5, 6, 7], some .typeError) := by decide
 example : setAt true [1, 2, 3, 4, 5, 6, 7] 2 (.arr .intArray (.int .i8) 4) (.slice (some 3) none (some (-2)))
     (.seq .list [.int 9, .int 8]) = ([1, 2, 3, 8, 5, 9, 7], none) := by decide
+
+/-! ## the validation switch over whole programs
+
+`Stmt` / `execList` (Model/ValidatorsExt.lean): `with disable_message_validation(ignore): …` nested to any depth,
+`try … except: pass`, `raise`, binding of array objects / sub-structures / struct-array elements at any point, assignments
+through a fresh attribute access or through an object bound earlier.  A refused assignment is an exception like any other:
+it leaves every enclosing block up to the next `try`.  (The flat event histories of `validation_restored` above are the
+special case without assignments.) -/
+
+open Pyrtma.Validators
+
+/-- the model's own observation of one recorded assignment -/
+def obsOf (r : AssignRec) : ProgObs :=
+  { depth := r.depth, loc := r.loc, key := r.key, val := r.val, pre := r.pre, post := r.post,
+    raised := r.err.isSome, rb := readAt r.post r.loc.off r.loc.ty r.key }
+
+/-- **The switch is restored.**  Whatever the program - blocks nested to any depth, `ignore` or not, left normally, by
+`raise`, or by a refused assignment; `try/except` anywhere; views bound anywhere - the context variable afterwards is
+what it was before, also when the program as a whole ends by an exception. -/
+theorem switch_restored (d : Nat) (s : PState) (h : s.flag = decide (d = 0)) (prog : List Stmt) :
+    (execList d s prog).1.flag = s.flag := (execList_ok d s h prog).1
+
+theorem switch_on_after_any_program (msg : Bytes) (prog : List Stmt) :
+    (execList 0 { msg := msg } prog).1.flag = true := switch_restored 0 { msg := msg } rfl prog
+
+/-- **Every assignment outside a disable block is validated, whatever it goes through**: each assignment the run
+executed at lexical depth 0 - after any number of blocks entered and left before it, through a fresh attribute access or
+through any object bound earlier (inside or outside a block) - had exactly the effect of the validating
+`__set__` / `__setitem__` on the message as it was at that moment. -/
+theorem outside_blocks_validated (msg : Bytes) (prog : List Stmt) :
+    ∀ rec ∈ (execList 0 { msg := msg } prog).1.log, rec.depth = 0 →
+      (rec.post, rec.err) = setAt true rec.pre rec.loc.off rec.loc.ty rec.key rec.val := by
+  obtain ⟨_, new, hlog, _, hall⟩ := execList_ok 0 { msg := msg } rfl prog
+  intro rec hrec hd
+  rw [hlog] at hrec
+  simp only [List.append_nil] at hrec
+  obtain ⟨hf, hr⟩ := hall rec hrec
+  unfold RecOK at hr
+  rw [hf, hd] at hr
+  simpa using hr
+
+/-- … and inside a disabling block none is (the flag really is off there: the model does not validate more than the code) -/
+theorem inside_blocks_not_validated (msg : Bytes) (prog : List Stmt) :
+    ∀ rec ∈ (execList 0 { msg := msg } prog).1.log, rec.depth ≠ 0 →
+      (rec.post, rec.err) = setAt false rec.pre rec.loc.off rec.loc.ty rec.key rec.val := by
+  obtain ⟨_, new, hlog, _, hall⟩ := execList_ok 0 { msg := msg } rfl prog
+  intro rec hrec hd
+  rw [hlog] at hrec
+  simp only [List.append_nil] at hrec
+  obtain ⟨hf, hr⟩ := hall rec hrec
+  unfold RecOK at hr
+  rw [hf] at hr
+  simpa [hd] using hr
+
+/-- the recorded assignments thread the message from its initial to its final content: each one started from what
+the previous one left behind -/
+theorem log_threads_message (msg : Bytes) (prog : List Stmt) :
+    Chain msg (execList 0 { msg := msg } prog).1.log.reverse (execList 0 { msg := msg } prog).1.msg := by
+  obtain ⟨_, new, hlog, hch, _⟩ := execList_ok 0 { msg := msg } rfl prog
+  rw [hlog]; simpa using hch
+
+/-- one validated assignment on the whole message meets every clause of C09 -/
+theorem setAt_meets_spec (pre : Bytes) (l : Loc) (hF : FloatOK l.ty.vk) (key : Key) (v : PyVal) (post : Bytes)
+    (err : Option PyErr) (hfit : l.off + l.ty.size ≤ pre.length) (hty : tyWF l.ty = true)
+    (hw : valWF l.ty.vk v = true) (h : (post, err) = setAt true pre l.off l.ty key v) :
+    ∀ c ∈ clauses l.ty key v
+      (ProgObs.toObs { depth := 0, loc := l, key := key, val := v, pre := pre, post := post, raised := err.isSome,
+                       rb := readAt post l.off l.ty key }), c.2 = true := by
+  cases err with
+  | some e =>
+    have hne : (setAt true pre l.off l.ty key v).2 ≠ none := by rw [← h]; simp
+    have hsame := refused_leaves_message_unchanged pre l.off l.ty key v hne
+    have hp : post = pre := by rw [← hsame, ← h]
+    subst hp
+    intro c hc
+    simp only [clauses, ProgObs.toObs, List.mem_cons, List.mem_nil_iff, or_false] at hc
+    rcases hc with rfl | rfl | rfl <;> simp
+  | none =>
+    obtain ⟨hlen, h1, h2, h3⟩ := accepted_touches_only_the_field pre l.off l.ty hF key v post hfit hty hw h.symm
+    have hold : (fieldOf pre l).length = l.ty.size := by simp [fieldOf]; omega
+    have hacc : setField true l.ty (fieldOf pre l) key v = (fieldOf post l, none) := by
+      have : (setAt true pre l.off l.ty key v).2 = none := by rw [← h]
+      unfold setAt at this
+      simp only at this
+      unfold fieldOf
+      rw [h3]
+      exact Prod.ext rfl this
+    obtain ⟨hd, hp, _⟩ := accepted_sound l.ty hF _ key v _ hty hold hw hacc
+    intro c hc
+    simp only [clauses, ProgObs.toObs, List.mem_cons, List.mem_nil_iff, or_false] at hc
+    have hrb : readAt post l.off l.ty key = readField l.ty key (fieldOf post l) := rfl
+    rcases hc with rfl | rfl | rfl
+    · simp
+    · simp [hd]
+    · simp [hd, hrb, hp]
+
+/-- **Outside disable blocks the whole of C09 holds** for the run of any program: every recorded assignment at depth 0
+satisfies the three clauses (refused ⇒ every byte of the message unchanged; accepted ⇒ in the domain, stored, read back,
+nothing outside the field touched) - given that the fields lie inside the message and the values are well-formed. -/
+theorem outside_blocks_meet_spec (msg : Bytes) (prog : List Stmt) :
+    ∀ rec ∈ (execList 0 { msg := msg } prog).1.log,
+      FloatOK rec.loc.ty.vk → rec.loc.off + rec.loc.ty.size ≤ rec.pre.length → tyWF rec.loc.ty = true →
+      valWF rec.loc.ty.vk rec.val = true → ∀ c ∈ progClauses (obsOf rec), c.2 = true := by
+  intro rec hrec hF hfit hty hw c hc
+  unfold progClauses obsOf at hc
+  simp only at hc
+  split at hc
+  · rename_i hd
+    have hv := outside_blocks_validated msg prog rec hrec hd
+    exact setAt_meets_spec rec.pre rec.loc hF rec.key rec.val rec.post rec.err hfit hty hw hv c hc
+  · simp at hc
+
+
+/-- a view bound *inside* a disable block and used after it: validated (the bad value is refused, nothing changes); used
+inside the block: not validated (300 wraps to 44); the switch is on at the end although the last statement raised -/
+def demoTy : FTy := .arr .intArray (.int .i8) 3
+def demoRun : PState × Bool :=
+  execList 0 { msg := [0, 0, 0] }
+    [ .block false [.bind 0 ⟨0, demoTy⟩, .assign (.view 0) ⟨0, demoTy⟩ (.idx 0) (.sc (.int 300)),
+                    .block true [.tryCatch [.raise]]],
+      .tryCatch [.assign (.view 0) ⟨0, demoTy⟩ (.idx 1) (.sc (.int 300)),
+                 .assign .fresh ⟨0, demoTy⟩ (.idx 1) (.sc (.int 1))],
+      .block false [.block false [.raise]],
+      .assign .fresh ⟨0, demoTy⟩ (.idx 2) (.sc (.int 7)) ]
+example : demoRun.1.msg = [44, 0, 0] ∧ demoRun.1.flag = true ∧ demoRun.2 = true ∧
+    (demoRun.1.log.reverse.map fun x => (x.depth, x.flag, x.err)) =
+      [(1, false, none), (0, true, some .valueError)] := by decide
 
 /-! ### non-vacuity of the soundness theorems -/
 
